@@ -278,6 +278,18 @@ def run(run):
             if "NoCrossTalk" not in str(e):
                 raise
             run.extra["mc_instances"][f"MC_Cache_{o} (negative)"] = {"violates": "NoCrossTalk", "as_expected": True}
+    # CacheObj.tla: keys must be descriptions, not their hashes (F25), and mutable objects must not be cached by identity
+    res = mc.run_mc("MC_CacheObj_code", workers=2, module="MC_CacheObj")
+    run.tlc(res)
+    run.extra["mc_instances"]["MC_CacheObj_code"] = {"states": res.distinct, "exhaustive": True}
+    for nm, prop in (("MC_CacheObj_hash", "InvisibleState"), ("MC_CacheObj_identity", "ObjFresh")):
+        try:
+            mc.run_mc(nm, workers=1, module="MC_CacheObj", coverage=False)
+            raise tla.MachineryError(f"negative instance {nm} was not refuted (vacuity)")
+        except tla.MachineryError as e:
+            if prop not in str(e):
+                raise
+            run.extra["mc_instances"][nm + " (negative)"] = {"violates": prop, "as_expected": True}
     seqs = seqs_from_tlc(run)
     run.extra["sequences_enumerated_by_tlc"] = len(seqs)
     if len(seqs) != 729:
